@@ -193,10 +193,26 @@ enum Verdict {
     Open(&'static str),
 }
 
-/// Reference decision from the property text. `params_specific`: alternative reading in which
-/// additional media-type parameters make a range more specific (used only to classify
-/// disagreements on headers with parameters as observed-only).
-fn decide(ranges: &[Range], regs: &[Enc], params_specific: bool) -> (Verdict, &'static str) {
+/// How media-type parameters of a range enter its specificity.
+#[derive(Clone, Copy, PartialEq)]
+enum Spec {
+    /// not at all (the plain reading of the property text)
+    Ignore,
+    /// by their number (used only to classify disagreements on headers with parameters as observed-only)
+    Count,
+    /// by refinement: a range whose parameter set strictly contains another's (same type/subtype level) is
+    /// more specific than it (RFC 7231 5.3.2: text/plain;format=flowed over text/plain); parameter sets
+    /// that are not nested stay equally specific. Every reading that lets parameters add specificity at
+    /// all agrees with this one where it decides.
+    Refine,
+}
+
+fn param_set(g: &Range) -> std::collections::BTreeSet<(String, String)> {
+    g.params_before.iter().chain(g.params_after.iter()).map(|(k, v)| (k.to_ascii_lowercase(), v.clone())).collect()
+}
+
+/// Reference decision from the property text.
+fn decide(ranges: &[Range], regs: &[Enc], spec: Spec) -> (Verdict, &'static str) {
     if regs.is_empty() {
         return (Verdict::NoneAcceptable, "no-encodings");
     }
@@ -211,11 +227,17 @@ fn decide(ranges: &[Range], regs: &[Enc], params_specific: bool) -> (Verdict, &'
             .iter()
             .enumerate()
             .filter_map(|(i, g)| {
-                matches(g, e).map(|l| (i, l, if params_specific { g.params_before.len() + g.params_after.len() } else { 0 }))
+                matches(g, e).map(|l| (i, l, if spec == Spec::Count { g.params_before.len() + g.params_after.len() } else { 0 }))
             })
             .collect();
         let Some(top) = ms.iter().map(|(_, l, p)| (*l, *p)).max() else { continue };
-        let tops: Vec<usize> = ms.iter().filter(|(_, l, p)| (*l, *p) == top).map(|(i, _, _)| *i).collect();
+        let mut tops: Vec<usize> = ms.iter().filter(|(_, l, p)| (*l, *p) == top).map(|(i, _, _)| *i).collect();
+        if spec == Spec::Refine {
+            // keep the maximal ranges: those whose parameter set is not strictly contained in another's
+            let sets: Vec<_> = tops.iter().map(|i| param_set(&ranges[*i])).collect();
+            let keep: Vec<usize> = (0..tops.len()).filter(|a| !(0..tops.len()).any(|b| sets[b].len() > sets[*a].len() && sets[*a].is_subset(&sets[b]))).collect();
+            tops = keep.into_iter().map(|k| tops[k]).collect();
+        }
         let qs: Vec<u32> = tops.iter().map(|i| ranges[*i].q).collect();
         if qs.iter().any(|q| *q != qs[0]) {
             open = Some("most-specific-ranges-disagree-on-q");
@@ -295,6 +317,22 @@ fn accept_case(seed: u64, rep: &mut Report) {
             entries.push(Entry::Range(g2));
         }
     }
+    // bias: refine a range - same type/subtype and parameters plus one more parameter, another q
+    if !entries.is_empty() && r.chance(1, 6) {
+        let rs: Vec<Range> = entries.iter().filter_map(|e| if let Entry::Range(g) = e { Some(g.clone()) } else { None }).collect();
+        if !rs.is_empty() {
+            let mut g2 = r.pick(&rs).clone();
+            let used = param_set(&g2);
+            if let Some(k) = ["version", "profile", "level", "charset"].iter().find(|k| !used.iter().any(|(u, _)| u == *k)) {
+                g2.params_before.push((k.to_string(), r.pick(&["1", "2", "utf-8"]).to_string()));
+                let (q, t) = gen_q(r);
+                g2.q = q;
+                g2.q_text = t;
+                let at = r.below(entries.len() + 1);
+                entries.insert(at, Entry::Range(g2));
+            }
+        }
+    }
     // split over header lines
     let mut lines: Vec<Vec<String>> = vec![vec![]];
     for e in &entries {
@@ -328,7 +366,17 @@ fn accept_case(seed: u64, rep: &mut Report) {
         .collect();
     let has_params = ranges.iter().any(|g| !g.params_before.is_empty() || !g.params_after.is_empty());
     let all_garbage = ranges.is_empty() && !entries.is_empty();
-    let (verdict, rule) = decide(&ranges, &regs, false);
+    let (mut verdict, mut rule) = decide(&ranges, &regs, Spec::Ignore);
+    let mut refined = false;
+    if has_params && matches!(verdict, Verdict::Open(_)) {
+        // equally specific by type/subtype, different q: decided where the parameter sets are nested
+        let (v2, r2) = decide(&ranges, &regs, Spec::Refine);
+        if !matches!(v2, Verdict::Open(_)) {
+            verdict = v2;
+            rule = r2;
+            refined = true;
+        }
+    }
 
     let runtime = build_runtime(&regs);
     let got = guarded(|| runtime.response_body_encoding(&headers).map(|e| e.content_type()));
@@ -375,6 +423,9 @@ fn accept_case(seed: u64, rep: &mut Report) {
         return;
     }
     rep.cell(&format!("rule/{}", rule));
+    if refined {
+        rep.cell("rule/decided-by-parameter-refinement");
+    }
     if agrees(&verdict) {
         if let Err(false) = observed {
             rep.violation("accept", seed, "accept:error-not-invalid-argument", detail());
@@ -396,7 +447,7 @@ fn accept_case(seed: u64, rep: &mut Report) {
         }
         return;
     }
-    if has_params && agrees(&decide(&ranges, &regs, true).0) {
+    if has_params && !refined && agrees(&decide(&ranges, &regs, Spec::Count).0) {
         rep.observed_only("parameters-counted-as-specificity");
         return;
     }
